@@ -1,7 +1,9 @@
 import Gtree.Model.Api
+import Gtree.Generated.Facts
 /-
   Model of cmd/gtree (main.go, output.go, mkdir.go, verify.go, error.go): which failure gives which
-  exit status. `urfave/cli` itself (flag parsing) is not modelled: the harness observes which of the
+  exit status. The numbers come from the sources on every run (`Gtree.Generated.Facts.cliExitCodes`).
+  `urfave/cli` itself (flag parsing) is not modelled: the harness observes which of the
   stages below a command line reaches and compares the exit status with this table.
 -/
 namespace Gtree
@@ -18,17 +20,22 @@ inductive CliStage where
   | lib (ok : Bool) -- the library call ran; ok = it returned nil
 deriving Repr, DecidableEq
 
-/-- exit status as wired in main.go / error.go; `dry` = mkdir --dry-run (routed to output) -/
+/-- the status a `cmd/gtree` helper exits with — read from the regenerated facts (`cli.Exit(err, <constant>)`,
+    constant expressions of error.go evaluated by the extractor); 0 for a helper the sources no longer have -/
+def exitCode (helper : String) : Nat := (Facts.cliExitCodes.lookup helper).getD 0
+
+/-- exit status as wired in main.go / error.go; `dry` = mkdir --dry-run (routed to output).
+    `usage`: an error that is not a `cli.ExitCoder` comes back from `app.Run` and `main` exits with 1. -/
 def exitStatus (sub : Sub) (dry : Bool) : CliStage → Nat
   | .usage => 1
-  | .opts => 1
-  | .open_ => 2
+  | .opts => exitCode "exitErrOpts"
+  | .open_ => exitCode "exitErrOpen"
   | .lib true => 0
   | .lib false =>
     match sub with
-    | .output => 3
-    | .mkdir => if dry then 3 else 4
-    | .verify => 5
+    | .output => exitCode "exitErrOutput"
+    | .mkdir => if dry then exitCode "exitErrOutput" else exitCode "exitErrMkdir"
+    | .verify => exitCode "exitErrVerify"
     | .template => 1
 
 end Gtree
